@@ -336,7 +336,7 @@ pub fn run(seed: u64, n: usize, kinds: &[String], out: &mut dyn Write) -> std::i
     let mut r = Rng::new(seed);
     let mut count = 0usize;
     let want = |k: &str| kinds.is_empty() || kinds.iter().any(|x| x == k);
-    let mut emit = |v: Value, out: &mut dyn Write, count: &mut usize| -> std::io::Result<()> {
+    let emit = |v: Value, out: &mut dyn Write, count: &mut usize| -> std::io::Result<()> {
         writeln!(out, "{}", v)?;
         *count += 1;
         Ok(())
